@@ -235,7 +235,7 @@ def determinism(chk, tier, paths, d):
     # cold start: the first translations of a fresh process are made by four threads at once
     cold = os.path.join(core.VERIF, 'harness', 'c09_cold.py')
     cjobs = [subprocess.Popen(['/venv/bin/python', cold, core.REPO] + [paths[0], paths[1], paths[3]], stdout=subprocess.PIPE, stderr=subprocess.DEVNULL, text=True,
-                              env=dict(env_base, PYTHONHASHSEED=str(k))) for k in range(6 if tier == 'quick' else 40)]
+                              env=dict(env_base, PYTHONHASHSEED=str(k), E2P_COLD_TRACE='1' if k % 2 else '0')) for k in range(8 if tier == 'quick' else 40)]
     cold_hashes = {}
     for p in cjobs:
         out, _ = p.communicate(timeout=600)
